@@ -297,10 +297,20 @@ func run(ci any, r *mon.Rec) {
 		kw, kp := outcomeKey(with), outcomeKey(without)
 		if kw != kp {
 			// wall-clock sensitive outcomes (a timeout racing the last read) are re-run once before being believed
-			with2 := clientx.Run(c.Client, req, script, clientx.Options{ReadTimeout: 40 * rt, Hooks: &recHooks{clk: &xport.Clock{}}, Flusher: i%2 == 0, OnParse: plain.OnParse})
-			without2 := clientx.Run(c.Client, req, script, clientx.Options{ReadTimeout: 40 * rt, Flusher: i%2 == 0, OnParse: plain.OnParse})
-			if outcomeKey(with2) != outcomeKey(without2) {
-				r.Violate(c, "hooks-change-outcome", a, fmt.Sprintf("%s: with hooks %s, without %s", ctx, outcomeKey(with2), outcomeKey(without2)))
+			// (an outcome that really depends on the hooks differs every time; one that differed because the machine
+			// stalled one of the two runs does not: three more pairs with a 40x timeout, all of them have to differ)
+			differ, last := 0, ""
+			for try := 0; try < 3; try++ {
+				with2 := clientx.Run(c.Client, req, script, clientx.Options{ReadTimeout: 40 * rt, Hooks: &recHooks{clk: &xport.Clock{}}, Flusher: i%2 == 0, OnParse: plain.OnParse})
+				without2 := clientx.Run(c.Client, req, script, clientx.Options{ReadTimeout: 40 * rt, Flusher: i%2 == 0, OnParse: plain.OnParse})
+				if outcomeKey(with2) != outcomeKey(without2) {
+					differ++
+					last = fmt.Sprintf("with hooks %s, without %s", outcomeKey(with2), outcomeKey(without2))
+				}
+			}
+			r.NoteAdd("outcome_pairs_rerun", 1)
+			if differ == 3 {
+				r.Violate(c, "hooks-change-outcome", a, fmt.Sprintf("%s: %s (first pair: with %s, without %s)", ctx, last, kw, kp))
 			}
 			continue
 		}
